@@ -114,4 +114,118 @@ theorem fresh_slice_length (std : Stdlib) (n : Nat) (fo : FOpts) (t : Ty) (v : V
   | panic s => rw [hd] at h; simp at h
   | fuel => rw [hd] at h; simp at h
 
+/-! ### the frame of a whole struct
+
+`Untouched` describes the fields the configuration has nothing for: ignored / unexported ones, and fields of primitive
+or pointer type whose name the configuration does not hold. The lifted frame law: after a successful field loop every
+such field - at any position, among any other fields - holds exactly what it held. -/
+
+/-- the configuration has no say about this field -/
+def Untouched (o : Opts) (cfg : Val) (f : String × String × String × Ty) : Prop :=
+  accessField o f.1 f.2.1 f.2.2.1 = .ok none ∨
+  ∃ fi, accessField o f.1 f.2.1 f.2.2.1 = .ok (some fi) ∧ fi.tag.squash = false ∧
+    ((∃ k, f.2.2.2 = Ty.prim k) ∨ (∃ t, f.2.2.2 = Ty.ptr t)) ∧
+    pathGet tcPlain (parsePathOpts fi.name { o with handling := fi.handling }) cfg = .ok none
+
+theorem struct_frame (std : Stdlib) (o : Opts) (cfg : Val) :
+    ∀ (fs : List (String × String × String × Ty)) (n : Nat) (xs xs' : List GoVal),
+      reifyStructT std n o fs xs cfg = .ok xs' →
+      ∀ (i : Nat) (f : String × String × String × Ty) (x : GoVal),
+        fs[i]? = some f → xs[i]? = some x → Untouched o cfg f → xs'[i]? = some x := by
+  intro fs
+  induction fs with
+  | nil => intro n xs xs' _ i f x hf; simp at hf
+  | cons f0 fr ih =>
+    intro n xs xs' h i f x hf hx hu
+    obtain ⟨g, tag, vtag, t⟩ := f0
+    cases n with
+    | zero => simp [reifyStructT] at h
+    | succ m =>
+      cases xs with
+      | nil => simp at hx
+      | cons x0 xr =>
+        unfold reifyStructT at h
+        simp only [Bind.bind, Outcome.bind] at h
+        cases ha : accessField o g tag vtag with
+        | err e => rw [ha] at h; simp at h
+        | panic s => rw [ha] at h; simp at h
+        | fuel => rw [ha] at h; simp at h
+        | ok fio =>
+          rw [ha] at h
+          simp only at h
+          -- the head of the result, and the rest
+          have key : ∃ x0' rest, xs' = x0' :: rest ∧ reifyStructT std m o fr xr cfg = .ok rest ∧
+              (Untouched o cfg (g, tag, vtag, t) → x0' = x0) := by
+            cases fio with
+            | none =>
+              simp only at h
+              cases hr : reifyStructT std m o fr xr cfg with
+              | ok rest =>
+                rw [hr] at h; simp only [Outcome.ok.injEq] at h
+                exact ⟨x0, rest, h.symm, rfl, fun _ => rfl⟩
+              | err e => rw [hr] at h; simp at h
+              | panic s => rw [hr] at h; simp at h
+              | fuel => rw [hr] at h; simp at h
+            | some fi =>
+              simp only at h
+              generalize hx0 : (if fi.tag.squash = true then _ else _ : Outcome GoVal) = r0 at h
+              cases r0 with
+              | ok x0' =>
+                simp only at h
+                cases hr : reifyStructT std m o fr xr cfg with
+                | ok rest =>
+                  rw [hr] at h; simp only [Outcome.ok.injEq] at h
+                  refine ⟨x0', rest, h.symm, rfl, ?_⟩
+                  intro hu0
+                  rcases hu0 with hnone | ⟨fi', hfi', hsq, hty, habs⟩
+                  · simp only at hnone; rw [ha] at hnone; cases hnone
+                  · simp only at hfi' hty
+                    rw [ha] at hfi'
+                    simp only [Outcome.ok.injEq, Option.some.injEq] at hfi'
+                    subst hfi'
+                    simp only [hsq, Bool.false_eq_true, if_false] at hx0
+                    cases m with
+                    | zero => simp [getField'] at hx0
+                    | succ m' =>
+                      rcases hty with ⟨k, rfl⟩ | ⟨t', rfl⟩
+                      · exact unmentioned_primitive_unchanged std m' _ k x0 x0' cfg fi.name habs hx0
+                      · exact unmentioned_pointer_unchanged std m' _ t' x0 x0' cfg fi.name habs hx0
+                | err e => rw [hr] at h; simp at h
+                | panic s => rw [hr] at h; simp at h
+                | fuel => rw [hr] at h; simp at h
+              | err e => simp at h
+              | panic s => simp at h
+              | fuel => simp at h
+          obtain ⟨x0', rest, rfl, hrest, hhead⟩ := key
+          cases i with
+          | zero =>
+            simp only [List.getElem?_cons_zero, Option.some.injEq] at hf hx
+            subst hf; subst hx
+            simp only [List.getElem?_cons_zero, Option.some.injEq]
+            exact hhead hu
+          | succ j =>
+            simp only [List.getElem?_cons_succ] at hf hx ⊢
+            exact ih m xr rest hrest j f x hf hx hu
+
+/-- at the API: `cfg.Unpack(&target)` leaves every untouched field of the struct passed in as it was -/
+theorem unpack_frame (std : Stdlib) (o : Opts) (cfg : Val) (fs : List (String × String × String × Ty))
+    (xs : List GoVal) (v : GoVal) (h : unpack std o (.strct fs) (.strct xs) cfg = .ok v) :
+    ∃ xs', v = .strct xs' ∧ ∀ (i : Nat) (f : String × String × String × Ty) (x : GoVal),
+      fs[i]? = some f → xs[i]? = some x → Untouched o cfg f → xs'[i]? = some x := by
+  unfold unpack at h
+  simp only [Bind.bind, Outcome.bind] at h
+  cases hr : reifyStructT std unpackFuel o fs xs cfg with
+  | ok xs' =>
+    rw [hr] at h
+    simp only [Outcome.ok.injEq] at h
+    exact ⟨xs', h.symm, struct_frame std o cfg fs unpackFuel xs xs' hr⟩
+  | err e => rw [hr] at h; simp at h
+  | panic s => rw [hr] at h; simp at h
+  | fuel => rw [hr] at h; simp at h
+
+/-- a failing Unpack returns no struct at all: there is nothing to assign back (reifyStruct works on a copy) -/
+theorem failed_unpack_has_no_result (std : Stdlib) (o : Opts) (ty : Ty) (old : GoVal) (cfg : Val) (e : Err)
+    (h : unpack std o ty old cfg = .err e) : ∀ v, unpack std o ty old cfg ≠ .ok v := by
+  intro v hv; rw [h] at hv; cases hv
+
 end Ucfg.C13
